@@ -575,7 +575,7 @@ def ctor_specs(rng, tier):
     for _ in range(n // 2):
         good = rng.random() < 0.55
         cols = rng.choice([1, 2, 3, 4, 12, 24] if good else [1, 2, 3, 4, 12, 24, 0, -1, {"notint": "float:2.0"}, {"notint": "float:2.5"}])
-        vrows = rng.choice([1, 2, 4, 8, 26] if good else [1, 2, 4, 8, 26, 27, 30, 0, -1, {"notint": "float:2.5"}])
+        vrows = rng.choice([1, 2, 4, 8, 26] if good else [1, 2, 4, 8, 26, 27, 30, 0, -1, {"notint": "float:2.5"}, {"notint": "none"}])
         c_ok = cols if isinstance(cols, int) and cols > 0 else 2
         mx = rng.choice(["1000", "10000", "25/2"] if good else ["1000", "10000", "25/2", "nan"])
         mxv = Fraction(mx) if mx != "nan" else Fraction(100)
@@ -618,6 +618,7 @@ def ctor_specs(rng, tier):
         elif r < 0.5:
             spec["column_names"] = [rng.choice(["a", None]) for _ in range(c_ok + 1)] if rng.random() < 0.7 else []
         specs.append(spec)
+    specs.append({"kind": "trough", "name": "T", "vrows": {"notint": "none"}, "cols": 2, "min": "0", "max": "100", "init": None})
     # otherwise valid troughs whose per-column name list has the wrong length, the empty list included
     for cols_ in (1, 2, 3):
         for cn in ([], [None] * (cols_ + 1), ["a"] * (cols_ - 1) if cols_ > 1 else ["a", "b"]):
@@ -969,7 +970,8 @@ class SelSuite:
             r, c = case["rows"], case["cols"]
             w = case["wells"]
             flat = [w["v"]] if w["shape"] == "scalar" else (w["v"] if w["shape"] == "list" else [x for row in w["v"] for x in row])
-            known = all(len(x) == 3 and x[0].isupper() and x[1:].isdigit() and ord(x[0]) - 65 < r and 1 <= int(x[1:]) <= c for x in flat)
+            known = all(len(x) >= 3 and x[0].isascii() and x[0].isupper() and x[1:].isascii() and x[1:].isdigit() and ord(x[0]) - 65 < r
+                        and 1 <= int(x[1:]) <= c and x == wid(ord(x[0]) - 65, int(x[1:]) - 1) for x in flat)
             if not known:
                 return [] if obs.get("err") else ["array: unknown well id accepted"]
             if obs.get("err"):
